@@ -156,8 +156,50 @@ func run(c *harness.Ctx, i int) {
 			copy(data[cb.Start:], tmp)
 		}
 	}
+	// mutations of the index instead of the file: an entry whose ID belongs to other data of a related shape
+	if mutation == "none" && nc > 0 && rng.Intn(3) == 0 {
+		idx.Chunks = append([]desync.IndexChunk(nil), idx.Chunks...)
+		k := rng.Intn(nc)
+		ch := idx.Chunks[k]
+		switch rng.Intn(4) {
+		case 0:
+			// the range holds zeros and the entry carries the ID of the all-zero chunk of maximum size, but is shorter
+			if ch.Size < idx.Index.ChunkSizeMax {
+				for j := ch.Start; j < ch.Start+ch.Size; j++ {
+					data[j] = 0
+				}
+				idx.Chunks[k].ID = dsu.Sum(make([]byte, idx.Index.ChunkSizeMax))
+				mutation = "index-null-id-short"
+			}
+		case 1:
+			// the ID of a prefix of the chunk
+			if ch.Size > 1 {
+				idx.Chunks[k].ID = dsu.Sum(data[ch.Start : ch.Start+ch.Size-1-uint64(rng.Intn(int(ch.Size-1)))])
+				mutation = "index-id-of-prefix"
+			}
+		case 2:
+			// the ID of the neighbouring chunk
+			if nc > 1 {
+				idx.Chunks[k].ID = idx.Chunks[(k+1)%nc].ID
+				mutation = "index-id-of-neighbour"
+			}
+		case 3:
+			// the ID of the all-zero chunk of this very size on data that is not zero
+			idx.Chunks[k].ID = dsu.Sum(make([]byte, ch.Size))
+			mutation = "index-zero-id"
+		}
+	}
 	want := matches(data, idx)
 	useCLI := i%60 == 5
+	// a cancellation that arrives while a file that does NOT match is being verified must not turn into success
+	cancelAt := int64(0)
+	if !want && !useCLI && nc > 0 && rng.Intn(4) == 0 {
+		cancelAt = 1 + rng.Int63n(int64(nc))
+		if rng.Intn(2) == 0 {
+			cancelAt = int64(nc) - int64(rng.Intn(min(nc, 3))) // near the end: after the last batch was handed out
+		}
+		mutation += "+cancel"
+	}
 	c.Info("kind=%s chunks=%d n=%d batch=%d mutation=%s matches=%v cli=%v", kind, nc, n, batch, mutation, want, useCLI)
 	c.LogInfo()
 	dir := c.CaseDir()
@@ -179,7 +221,17 @@ func run(c *harness.Ctx, i int) {
 		}
 		c.Count("cli_runs", 1)
 	} else {
-		err = desync.VerifyIndex(context.Background(), file, idx, n, pb)
+		ctx, cancel := context.WithCancel(context.Background())
+		if cancelAt > 0 {
+			pb.OnAdd = func(k int64) {
+				if k >= cancelAt {
+					cancel()
+				}
+			}
+			c.Count("cancelled_verifications_of_mismatching_files", 1)
+		}
+		err = desync.VerifyIndex(ctx, file, idx, n, pb)
+		cancel()
 	}
 	if want && err != nil {
 		c.Violation("matching-file-rejected", "file matches the index (%d chunks, n=%d) but verify-index failed: %v", nc, n, err)
